@@ -659,7 +659,7 @@ def main():
     if chk.thorough:
         lengths = list(range(0, 16)) + list(range(61, 67))
         del_lengths = list(range(0, 10))
-        K = 7
+        K = 6
     else:
         lengths = list(range(0, 12)) + [62, 63]
         del_lengths = list(range(0, 7))
